@@ -7,6 +7,7 @@ package main
 
 import (
 	"errors"
+	log "github.com/sirupsen/logrus"
 	"math/rand"
 	"net"
 	"runtime"
@@ -71,11 +72,21 @@ type scriptedConn struct {
 	written    int64
 	overrun    bool
 	overrunCh  chan struct{}
+	faultAt    int64 // outbound fault: the Write call that crosses this byte offset accepts only the bytes up to it and reports a timeout
+	faulted    bool
+	faultCh    chan struct{}
 }
+
+// timeoutErr is what a net.Conn returns when a write deadline lapses.
+type timeoutErr struct{}
+
+func (timeoutErr) Error() string   { return "i/o timeout" }
+func (timeoutErr) Timeout() bool   { return true }
+func (timeoutErr) Temporary() bool { return true }
 
 func newScriptedConn(l *evlog) *scriptedConn {
 	return &scriptedConn{log: l, feed: make(chan []byte, 1<<16), fail: make(chan struct{}, 1),
-		closedCh: make(chan struct{}), readWait: make(chan struct{}, 1), overrunCh: make(chan struct{})}
+		closedCh: make(chan struct{}), readWait: make(chan struct{}, 1), overrunCh: make(chan struct{}), faultCh: make(chan struct{})}
 }
 
 func (c *scriptedConn) Read(p []byte) (int, error) {
@@ -143,6 +154,24 @@ func (c *scriptedConn) Write(p []byte) (int, error) {
 		}
 		c.wmu.Lock()
 		c.inWrite++
+		if c.faultAt > 0 && !c.faulted && c.written >= c.faultAt && len(p) >= 2 {
+			// the peer stalls inside this frame: part of it is accepted, then the write deadline lapses
+			k := len(p) - int(c.written-c.faultAt) - 1
+			if k < 1 {
+				k = 1
+			}
+			if k >= len(p) {
+				k = len(p) - 1
+			}
+			c.faulted = true
+			c.written -= int64(len(p) - k)
+			c.inWrite--
+			c.wmu.Unlock()
+			c.log.add(J{"e": "W", "b": byteList(p[:k])})
+			c.log.add(J{"e": "WFault", "n": k, "of": len(p)})
+			close(c.faultCh)
+			return k, timeoutErr{}
+		}
 		c.wmu.Unlock()
 	}
 	c.log.add(J{"e": "W", "b": byteList(p)})
@@ -646,6 +675,12 @@ func runStreamOut(sc J) J {
 	}
 	obs["msgs"] = encs
 	conn.wbudget = 2*int64(total) + 1<<20
+	if v, ok := sc["writeFaultAt"]; ok && toInt(v) > 0 {
+		fa := toInt(v)
+		conn.faultAt = int64(fa)
+		// the library answers a write error with log.Fatalf; keep the process alive so that the wire can be judged
+		log.StandardLogger().ExitFunc = func(int) {}
+	}
 	var wg sync.WaitGroup
 	start := make(chan struct{})
 	for p := 0; p < P; p++ {
@@ -670,6 +705,17 @@ func runStreamOut(sc J) J {
 	timeout := false
 	select {
 	case <-done:
+	case <-conn.faultCh:
+		// after the fault the writer may have stopped (producers then block for ever) or may carry on: wait for either
+		select {
+		case <-done:
+		case <-conn.overrunCh:
+		case <-time.After(1500 * time.Millisecond):
+		}
+		for lg.idleFor() < 300*time.Millisecond {
+			time.Sleep(5 * time.Millisecond)
+		}
+		timeout = true
 	case <-conn.overrunCh:
 		timeout = true
 	case <-time.After(120 * time.Second):
